@@ -76,7 +76,7 @@ Definition sep_bracket (name : str) : option (option N * str) :=
       match rev (split_on c_lbr name) with
       | last :: _ :: _ =>
         match rev last with
-        | [] => None                                      (* name_split[-1][-1]: IndexError *)
+        | [] => Some (None, name)                         (* name_split[-1].endswith("]") is False: not a bus bit *)
         | e :: body_rev =>
           if N.eqb e c_rbr && isdigit (rev body_rev)
           then match before_last c_lbr name with
